@@ -267,8 +267,10 @@ class Consumption:
         out = self.classify(fi, call, call, depth, seen)
         res = []
         for u in out:
-            if u.mode in ('return', 'yield-element', 'alias', 'other',
-                          'element-of-display'):
+            if u.mode == 'alias':
+                u.via = u.via or how
+            elif u.mode in ('return', 'yield-element', 'other',
+                            'element-of-display'):
                 u = self._mk(fi, call, 'lazy', how)
             u.via = u.via or how
             res.append(u)
